@@ -1300,6 +1300,12 @@ func phase1() {
 	h.pfx = "l"
 	small := lim{8, 6, 4, 3, stdLim.depth}
 	h.useLimits(small)
+	// a key that reaches maxNameBytes: ReadName gives up inside the loop and ReadDict goes on
+	// from there, taking the error for the end of the dictionary
+	for _, t := range []string{"<</F10x86>>", "<</F10x867>>", "<</F10x8>>", "<</A 1/F10x86>>", "<</F10x86 1>>",
+		"<</F#310x86>>", "<</F10x8#36>>", "<</F10x86>", "<</F10x86", "[<</ABCDEF>>/ABCDEF/ABCDE]", "<</ABCDEF>>>>"} {
+		h.text([]byte(t), "limit-key")
+	}
 	for n := 0; n <= 12; n++ {
 		s := bytes.Repeat([]byte{'a'}, n)
 		b := bytes.Repeat([]byte{0xfe}, n)
